@@ -7,6 +7,11 @@ BASELINE = ("cd /repo && (cargo nextest run --workspace --no-fail-fast --tool-co
 
 # id -> (level, technique, level text, note, design ref)
 CHECKS = {
+ "C05": ("exploration",
+         "property-based testing over (run-time type, document) pairs with a reference interpreter as three-valued oracle (Must / MustErr / Free with patterns); documents generated from the type then perturbed at one node",
+         "Random type descriptions (depth <= 4, all serde shapes incl. the four enum variant kinds, structs with / without deny_unknown_fields) with documents generated from a value of the type (bare / mapping / tagged enum notations, block and flow, CRLF, comments) and one of 18 perturbations at a random node (null / scalar / sequence / mapping / variant in place, extra / missing / first-missing element, extra / missing entry, renamed key, second variant entry, sequence<->mapping, quoting): an accepted value must match the position-faithful pattern computed by the harness' interpreter over the document AST, a shape mismatch must be rejected, a matching document must be accepted; a bare payload-variant name must not take its payload from a sibling. Exploration (150 k pairs quick, 2 M thorough).",
+         "trusts the reference interpreter (DESIGN.md Appendix A: every Must cites README / rustdoc, everything else is Free) and the document renderer (self-checked against the raw parser events); scalars are limited to three unambiguous lexical classes; one open finding (composite key mistaken for the explicit-empty-key case) is excluded by signature",
+         "DESIGN.md section 3 C05, Appendix A"),
  "C20": ("exploration",
          "property-based testing with a harness-computed ground-truth tree: values of the C13 grammar decorated with presentation wrappers (exhaustive comment / block-string pools x positions x options + proptest decorations); oracle = same data as the undecorated value, typed and untyped",
          "Every comment of an adversarial pool ('#', LF / CR / NEL / LS breaks, YAML syntax, quotes, NUL, tabs, long text) on every scalar kind in 4 positions, every block string of a pool (leading blanks, 0-3 trailing newlines, long words, tabs, controls) under LitStr / FoldStr in 4 positions, each x 11 option vectors x wrapper stacks, plus random decorations (FlowSeq, FlowMap, LitStr, FoldStr, Commented, SpaceAfter, nested) of random typed trees under random options: the output is one document, deserializes into the bare type as the original value and its untyped view equals the harness' ground truth (folded strings modulo one trailing line break); concrete wrapped types round-trip into the wrapped types (start-up check). Exploration.",
